@@ -249,6 +249,9 @@ SHARED = {
     "C04": [("c02", "r02_5_leap_decisions")],
     "C06": [("c04", "r04_8_queries_are_used"), ("c02", "r02_5_leap_decisions")],
     "C18": [("c12", "r12_2_3_eq_hash_fields")],
+    "C16": [("c01", "r01_11_trusted_packings")],
+    "C09": [("c01", "r01_11_trusted_packings")],
+    "C11": [("c03", "r03_11_trusted_instants")],
     "C07": [("c08", "r08_7_embedded_fields"), ("c17", "r17_8_variable_precision_predicates"), ("c08", "r08_10_field_set_tests")],
 }
 
